@@ -979,6 +979,8 @@ class World:
                     m.on_rpc(src, dst, name, wire_args, 'swallowed', None)
                 return True
         iface = dst.supervisor_rpc if ns == 'supervisor' else dst.supvisors_rpc
+        for m in self.monitors:
+            m.on_rpc_begin(src, dst, name, wire_args)
         with self.as_current(dst):
             try:
                 if name == 'supvisors.start_args':
@@ -1008,6 +1010,14 @@ class World:
 
     def user_rpc(self, inst: SimInstance, ns: str, method: str, args: tuple):
         """An XML-RPC issued by the (generated) user on ``inst``."""
+        for m in self.monitors:
+            m.on_user_rpc_begin(inst, f'{ns}.{method}', args)
+        out = self._user_rpc(inst, ns, method, args)
+        for m in self.monitors:
+            m.on_user_rpc(inst, f'{ns}.{method}', args, out)
+        return out
+
+    def _user_rpc(self, inst: SimInstance, ns: str, method: str, args: tuple):
         name = f'{ns}.{method}'
         if not inst.alive or inst.options.http_closed:
             return ('down',)
@@ -1121,5 +1131,8 @@ class Monitor:
     def on_enqueue(self, owner, proxy, message): pass
     def on_rpc(self, src, dst, name, args, outcome, result): pass
     def on_user_internal_error(self, inst, name, args, exc, tb): pass
+    def on_user_rpc(self, inst, name, args, outcome): pass
+    def on_user_rpc_begin(self, inst, name, args): pass
+    def on_rpc_begin(self, src, dst, name, args): pass
     def after_instance_step(self, inst): pass
     def after_step(self, world): pass
